@@ -50,6 +50,8 @@ def main():
     K.correspondence(rep, "net", 2000 if thorough else 200, 8, tag="c07", maxdigits=30)
     import corr_leak  # noqa: F401
     K.correspondence(rep, "leak", 2000 if thorough else 250, 8, tag="c07", maxdigits=30)
+    import corr_wtw  # noqa: F401
+    K.correspondence(rep, "wtw", 2000 if thorough else 250, 8, tag="c07", maxdigits=30)
     seen = mon_probe.run(rep, thorough)
     C.apply_known(rep, PID, {k: (v, "model", {"ops": [], "cls": "model"}, -1) for k, v in seen.items()})
     return rep.finish(RULE, ["no other operation between the check and the request", "offers are wet; requests are non-negative"])
